@@ -195,6 +195,7 @@ class SymFS:
         self.fault_fired = None
         self.protect_log = []
         self.reads = []           # (abspath) opened for reading
+        self.cut_reads = []       # (abspath, position, what): reads that a truncated length (bf.limit below the natural size) cut short
         self.mkdirs(cwd)
         self.audit.clear()
         self.nmut = 0
@@ -599,9 +600,15 @@ class BinHandle:
             S = core.cur().realise_int(S.t, limit=256)
         return max(0, S - pos)
 
+    def _cut(self, pos, what):
+        """Record a read whose result differs from what the untruncated file would have given."""
+        if self.bf.limit is not None and pos < self.bf.natural_size():
+            self.fs.cut_reads.append((self.ap, pos, what))
+
     def readline(self, limit=-1):
         pos = self._cpos()
         if not self._size_ge(pos + 1):
+            self._cut(pos, 'readline at the (early) end of the file')
             return b''
         nat = self.bf.natural_size()
         i, off = self.bf.locate(pos)
@@ -646,12 +653,15 @@ class BinHandle:
         S = self.bf.size()
         n = core.cur().realise_int((S - pos).t, limit=256) if isinstance(S, core.SymInt) else S - pos
         self.pos = pos + n
+        self._cut(pos, 'readline: the file ends inside the line')
         return out[:n]
 
     def read(self, n=-1):
         pos = self._cpos()
         avail = self._avail(pos)
         if n is None or n < 0 or n > avail:
+            if self.bf.limit is not None and pos + avail < self.bf.natural_size():
+                self._cut(pos, 'read: fewer bytes than the untruncated file holds')
             n = avail
         # a read that covers whole payload words only hands back the words themselves (np.frombuffer(bf.read(8 * n)))
         i0, off0 = self.bf.locate(pos)
@@ -708,6 +718,8 @@ class BinHandle:
                     nwords = core.cur().realise_int(((S - pos) // 8).t, limit=64)
             else:
                 nwords = max(0, (S - pos) // 8)
+            if self.bf.limit is not None and nwords < min(count, max(0, (self.bf.natural_size() - pos) // 8)):
+                self._cut(pos, 'fromfile: fewer values than the untruncated file holds')
         out = []
         segs = self.bf.segs
         i, off = self.bf.locate(pos)
